@@ -3,7 +3,7 @@
     source with arbitrary short reads.  Only statements live here. *)
 From Coq Require Import List ZArith Bool.
 From V Require Import Gen.Params Lib.Hex Wire.Varint H3Stream.Model H3Stream.Proofs H3Stream.ProofsStream
-  H3Stream.ProofsExact H3Stream.ProofsBody H3Stream.ProofsTrunc H3Stream.ProofsSettings.
+  H3Stream.ProofsExact H3Stream.ProofsBody H3Stream.ProofsTrunc H3Stream.ProofsSettings H3Stream.ProofsSched H3Stream.Conn H3Stream.ProofsConn H3Stream.ConnExamples.
 Import ListNotations.
 Open Scope Z_scope.
 
@@ -242,6 +242,20 @@ Example C18_example_truncated :
 Proof. vm_compute. auto 10. Qed.
 Print Assumptions C18_example_truncated.
 
+(** ParseNext does not depend on how the quic stream chunks the bytes into Reads: for EVERY byte
+    string (valid or not: DATA, HEADERS, SETTINGS, GOAWAY, skipped unknown / push / GREASE frames
+    of any length, reserved types, truncation), every terminal error and ANY two short-read
+    schedules the result (frame or error), the connection-close decision and the bytes left in
+    the stream are the same.  (The payload of a skipped frame that straddles Reads cannot put the
+    parser out of step -- seeded change C18-f.) *)
+Theorem C18_parse_next_chunking_independent :
+  forall (fuel : nat) (data sc1 sc2 : list Z) (fin : err) (fw : bool) (cl : option Z),
+  let r1 := parse_next fuel (mkSrc data sc1 fin fw) cl in
+  let r2 := parse_next fuel (mkSrc data sc2 fin fw) cl in
+  fst (fst r1) = fst (fst r2) /\ snd r1 = snd r2 /\ s_data (snd (fst r1)) = s_data (snd (fst r2)).
+Proof. exact parse_next_chunking_independent. Qed.
+Print Assumptions C18_parse_next_chunking_independent.
+
 (** SETTINGS and GOAWAY through ParseNext, with their values: an accepted SETTINGS frame yields
     exactly MAX_FIELD_SECTION_SIZE (or -1), the two booleans, and the unknown settings in order;
     a GOAWAY frame yields the stream ID when its length is the length of the varint, else the
@@ -288,3 +302,46 @@ Example C18_example_goaway :
   fst (fst (parse_next 5 (mkSrc [4; 4; 6; 64; 200; 51] [] EEOF true) None)) = inl EEOF.
 Proof. vm_compute. auto. Qed.
 Print Assumptions C18_example_goaway.
+
+(** CONNECTION LEVEL (model Conn.v of rawConn.handleUnidirectionalStream and the control-stream
+    handlers of server and client, replayed against the real code by unit h3conn): the RFC 9114
+    error table.  A second control / QPACK encoder / QPACK decoder stream => H3_STREAM_CREATION_ERROR;
+    a push stream => H3_STREAM_CREATION_ERROR at a server, H3_ID_ERROR at a client; any other stream
+    type leaves the connection alone and refuses the stream with H3_STREAM_CREATION_ERROR; a control
+    stream whose first frame is DATA => H3_MISSING_SETTINGS, a reserved frame type =>
+    H3_FRAME_UNEXPECTED, closed before any frame => H3_CLOSED_CRITICAL_STREAM. *)
+Theorem C18_conn_error_table :
+  stream_types_distinct /\
+  (forall c data fin th rest, c_closed c = None -> c_ctrl c = true -> venc th h3StreamTypeControl -> data = th ++ rest ->
+     c_closed (fst (uni_stream c data fin)) = Some h3ErrCodeStreamCreationError) /\
+  (forall c data fin th rest, c_closed c = None -> c_enc c = true -> venc th h3StreamTypeQPACKEncoder -> data = th ++ rest ->
+     c_closed (fst (uni_stream c data fin)) = Some h3ErrCodeStreamCreationError) /\
+  (forall c data fin th rest, c_closed c = None -> c_dec c = true -> venc th h3StreamTypeQPACKDecoder -> data = th ++ rest ->
+     c_closed (fst (uni_stream c data fin)) = Some h3ErrCodeStreamCreationError) /\
+  (forall c data fin th rest, c_closed c = None -> venc th h3StreamTypePush -> data = th ++ rest ->
+     c_closed (fst (uni_stream c data fin)) = Some (if c_server c then h3ErrCodeStreamCreationError else h3ErrCodeIDError)) /\
+  (forall c data fin th rest t, venc th t -> data = th ++ rest -> t <> 0 -> t <> 1 -> t <> 2 -> t <> 3 ->
+     uni_stream c data fin = (c, if fin then None else Some h3ErrCodeStreamCreationError)) /\
+  (forall c s th lh rest l, c_closed c = None -> s_finWith s = false -> venc th 0 -> venc lh l -> s_data s = th ++ lh ++ rest ->
+     c_closed (control_stream c s) = Some h3ErrCodeMissingSettings) /\
+  (forall c s th lh rest t l, c_closed c = None -> s_finWith s = false -> venc th t -> venc lh l -> reserved_type t = true ->
+     s_data s = th ++ lh ++ rest -> c_closed (control_stream c s) = Some h3ErrCodeFrameUnexpected) /\
+  (forall c s, c_closed c = None -> s_data s = [] -> s_fin s = EEOF ->
+     c_closed (control_stream c s) = Some h3ErrCodeClosedCriticalStream) /\
+  (h3ErrCodeStreamCreationError = 259 /\ h3ErrCodeClosedCriticalStream = 260 /\ h3ErrCodeIDError = 264 /\
+   h3ErrCodeMissingSettings = 266 /\ h3ErrCodeFrameUnexpected = 261).
+Proof. exact conn_error_table. Qed.
+Print Assumptions C18_conn_error_table.
+
+(** Non-vacuity / whole runs: a well-behaved peer (control stream with SETTINGS and skipped
+    frames, both QPACK streams, a GREASE stream) is left alone; a second SETTINGS frame, a
+    duplicate control stream and a server's GOAWAY at an idle client end as the table says. *)
+Example C18_example_conn :
+  (let '(c, stops) := conn_run (new_conn true) ex_peer_ok in
+   c_closed c = None /\ stops = [None; None; None; Some 259] /\ c_settings c = true) /\
+  c_closed (fst (conn_run (new_conn true) ex_peer_second_settings)) = Some 261 /\
+  c_closed (fst (conn_run (new_conn false) ex_peer_two_control)) = Some 259 /\
+  c_closed (fst (conn_run (new_conn false) ex_peer_goaway_12)) = Some 256 /\
+  c_closed (fst (conn_run (new_conn false) ex_peer_goaway_3)) = Some 264.
+Proof. vm_compute. auto 10. Qed.
+Print Assumptions C18_example_conn.
